@@ -86,6 +86,11 @@ def reqresp_oracle(ix: Index, scn: dict) -> list[Violation]:
                 out.append(Violation("never-completed", "", f"{op.actor} request still pending at t={end_t:.3f}, deadline was {t_deadline:.3f}"))
             continue
         end_turn = ix.seq_turn[op.s1]
+        if op.ok and any(a_ == op.actor and i_ == op.i and op.s0 < sq < op.s1 for sq, a_, i_ in ix.cancels):
+            # ... (result, timeout, cancellation, connection loss): a caller cancelled while its call was outstanding - the
+            # task's cancel() took effect - ends cancelled, also when the stop message was dispatched a moment earlier
+            out.append(Violation("cancel-swallowed", "", f"{op.actor} was cancelled while its call was outstanding, yet the call returned a result (turn {end_turn}) and its caller ran on"))
+            continue
         if op.ok:
             got = [[n, bytes(p)] for n, p in (op.value or [])]
             if stop_key is None:
